@@ -501,8 +501,17 @@ func runCloseRace(c *raceCase, reps int) (string, string) {
 		defer runtime.GOMAXPROCS(old)
 	}
 	limit := vkit.Limit()
+	var cancels []context.CancelFunc
+	defer func() {
+		for _, cf := range cancels {
+			cf()
+		}
+	}()
 	for rep := 0; rep < reps; rep++ {
+		// the readers' context is never cancelled: Close alone has to
+		// end everything ("exits once ... Close is called on the output")
 		ctx, cancel := context.WithCancel(context.Background())
+		cancels = append(cancels, cancel)
 		p := build(&Case{Construct: c.Construct, Source: "slice", N: c.N, Width: c.Width}, ctx)
 		it := p.outs[0]
 		var wg sync.WaitGroup
@@ -538,10 +547,8 @@ func runCloseRace(c *raceCase, reps int) (string, string) {
 		}()
 		close(start)
 		if !within(limit, wg.Wait) {
-			cancel()
 			return "consumer-stuck", fmt.Sprintf("%s: a first ReadOne racing Close has not returned after %v (repetition %d)", c.Construct, limit, rep)
 		}
-		cancel()
 		if e, _ := panicked.Load().(string); e != "" {
 			return "close-race-panic", fmt.Sprintf("%s: the first ReadOne, racing Close, panicked: %s (repetition %d)", c.Construct, e, rep)
 		}
@@ -701,5 +708,111 @@ func TestParallelSendersStop(t *testing.T) {
 			vkit.Fail(t, tSenders, "C04:"+c.Construct+"/"+k, *c, "%s", why)
 		}
 		vkit.CaseN(tSenders, vkit.Hash(*c), reps, true, []string{"construct:" + c.Construct, fmt.Sprintf("width:%d", c.Width), "stop:" + c.Stop}, func() any { return *c })
+	})
+}
+
+// ---------------------------------------------------------------------
+// Very many tiny finite pipelines: "a finite input always leads to io.EOF
+// (no deadlock)".  A wake-up lost once in ten thousand runs only shows when
+// the workers finish almost instantly (empty or very short inputs, 1-3
+// workers) and the pipeline is run tens of thousands of times.  One
+// goroutine runs the batch; a watchdog looks at its progress counter.
+
+const tTiny = "TestTinyPipelinesReachEOF"
+
+type tinyCase struct {
+	Construct string `json:"construct"`
+	N         int    `json:"n"`
+	Width     int    `json:"width"`
+	Procs     int    `json:"gomaxprocs"`
+}
+
+func runTiny(c *tinyCase, reps int) (string, string) {
+	if c.Procs > 0 {
+		old := runtime.GOMAXPROCS(c.Procs)
+		defer runtime.GOMAXPROCS(old)
+	}
+	limit := vkit.Limit()
+	var progress atomic.Int64
+	var bad atomic.Value
+	done := make(chan struct{})
+	ctx, cancel := context.WithCancel(context.Background())
+	defer cancel()
+	go func() {
+		defer close(done)
+		for rep := 0; rep < reps && ctx.Err() == nil; rep++ {
+			p := build(&Case{Construct: c.Construct, Source: "slice", N: c.N, Width: c.Width}, ctx)
+			var last error
+			n := 0
+			for {
+				_, err := p.outs[0].ReadOne(ctx)
+				if err != nil {
+					last = err
+					break
+				}
+				n++
+			}
+			if ctx.Err() != nil {
+				return
+			}
+			if !errors.Is(last, io.EOF) {
+				bad.Store(fmt.Sprintf("pipeline %d ended with %v after %d items, want io.EOF", rep, last, n))
+				return
+			}
+			for _, o := range p.outs {
+				_ = o.Close()
+			}
+			progress.Add(1)
+		}
+	}()
+	last, since := int64(-1), time.Now()
+	for {
+		select {
+		case <-done:
+			if e, _ := bad.Load().(string); e != "" {
+				return "eof", c.Construct + ": " + e
+			}
+			if left := vkit.NoFunGoroutines(limit); len(left) > 0 {
+				return "leak", fmt.Sprintf("%s: %d library goroutines are still alive after %d exhausted pipelines:\n%s", c.Construct, len(left), reps, stacks(left))
+			}
+			return "", ""
+		case <-time.After(5 * time.Millisecond):
+			if cur := progress.Load(); cur != last {
+				last, since = cur, time.Now()
+			} else if time.Since(since) > limit {
+				gs := stacks(vkit.FunGoroutines())
+				cancel()
+				<-done
+				return "no-eof", fmt.Sprintf("%s width %d over %d items: pipeline %d has not reached io.EOF for %v (a finite input, the consumer keeps reading); library goroutines:\n%s", c.Construct, c.Width, c.N, last, limit, gs)
+			}
+		}
+	}
+}
+
+func TestTinyPipelinesReachEOF(t *testing.T) {
+	var rc tinyCase
+	if ok, err := vkit.ReplayCase(tTiny, &rc); err != nil {
+		t.Fatal(err)
+	} else if ok {
+		if k, why := runTiny(&rc, vkit.Pick(200000, 1000000)); why != "" {
+			vkit.Fail(t, tTiny, "C04:"+rc.Construct+"/"+k, rc, "%s", why)
+		}
+		return
+	}
+	reps := vkit.Pick(4000, 20000)
+	rapid.Check(t, func(t *rapid.T) {
+		if vkit.AlreadyFailed(tTiny) {
+			return
+		}
+		c := &tinyCase{
+			Construct: rapid.SampledFrom([]string{"Map", "GenerateParallel", "MergeIterators", "ParallelBuffer", "Split", "Buffer", "Chain"}).Draw(t, "construct"),
+			N:         rapid.IntRange(0, 2).Draw(t, "n"),
+			Width:     rapid.IntRange(1, 3).Draw(t, "width"),
+			Procs:     rapid.SampledFrom([]int{2, 4, 16}).Draw(t, "gomaxprocs"),
+		}
+		if k, why := runTiny(c, reps); why != "" {
+			vkit.Fail(t, tTiny, "C04:"+c.Construct+"/"+k, *c, "%s", why)
+		}
+		vkit.CaseN(tTiny, vkit.Hash(*c), reps, true, []string{"construct:" + c.Construct}, func() any { return *c })
 	})
 }
